@@ -5,7 +5,7 @@ use veryl_analyzer::ir::{self as air, Statement};
 use crate::conv::arith;
 use crate::conv::expression::{
     emit_cube, emit_sop_bit, minimize_sop_cubes, reduce_and, reduce_or, synth_function_call_stmt,
-    synthesize_expr, try_constant,
+    synthesize_condition, synthesize_expr, synthesize_index, try_constant,
 };
 use crate::conv::ram;
 use crate::conv::{CondTerm, ConvContext};
@@ -75,7 +75,7 @@ fn process_statement(
             if try_fold_case_like(ctx, ifst, current)? {
                 return Ok(());
             }
-            let cond = synthesize_expr(ctx, &ifst.cond, current, 1)?[0];
+            let cond = synthesize_condition(ctx, &ifst.cond, current)?;
             let mut true_branch = current.clone();
             // Thread the condition so a RAM write inside takes it as its
             // write-enable; pop before `?` to keep the stack balanced on error.
@@ -137,7 +137,7 @@ fn record_ram_write(
             SynthesizerError::internal(format!("RAM write {} has no index", dst.id))
         })?;
     let idx_bits = arith::index_bits_for(cand.depth);
-    let addr = synthesize_expr(ctx, idx_expr, current, idx_bits)?;
+    let addr = synthesize_index(ctx, idx_expr, current, idx_bits)?;
     let mut data = src.to_vec();
     data.resize(cand.width, NET_CONST0);
     let enable = current_write_enable(ctx);
@@ -168,7 +168,7 @@ fn record_masked_ram_write(
             SynthesizerError::internal(format!("RAM write {} has no index", dst.id))
         })?;
     let idx_bits = arith::index_bits_for(cand.depth);
-    let addr = synthesize_expr(ctx, idx_expr, current, idx_bits)?;
+    let addr = synthesize_index(ctx, idx_expr, current, idx_bits)?;
     let mut data = synthesize_expr(ctx, d_expr, current, cand.width)?;
     data.resize(cand.width, NET_CONST0);
     let mut mask = synthesize_expr(ctx, m_expr, current, cand.width)?;
@@ -214,7 +214,7 @@ fn record_subword_ram_write(
             SynthesizerError::internal(format!("RAM write {} has no index", dst.id))
         })?;
     let idx_bits = arith::index_bits_for(cand.depth);
-    let addr = synthesize_expr(ctx, idx_expr, current, idx_bits)?;
+    let addr = synthesize_index(ctx, idx_expr, current, idx_bits)?;
     let enable = current_write_enable(ctx);
     let width = cand.width;
 
@@ -544,7 +544,7 @@ pub(crate) fn write_to_dst(
         // to the member width cancels a power-of-two offset but corrupts any
         // other.
         let idx_bits = arith::index_bits_for(member_offset + member_width);
-        let idx_nets = synthesize_expr(ctx, &dst.select.0[0], current, idx_bits)?;
+        let idx_nets = synthesize_index(ctx, &dst.select.0[0], current, idx_bits)?;
         SelectKind::DynamicSingle { idx_nets }
     };
 
@@ -592,7 +592,7 @@ pub(crate) fn write_to_dst(
             )));
         }
         let idx_bits = arith::index_bits_for(num_elements);
-        let idx_nets = synthesize_expr(ctx, &dst.index.0[0], current, idx_bits)?;
+        let idx_nets = synthesize_index(ctx, &dst.index.0[0], current, idx_bits)?;
         IndexKind::Dynamic {
             idx_nets,
             num_elements,
